@@ -54,8 +54,9 @@ Proof.
     destruct (take 1 i) as [[a r']|] eqn:Et; [|discriminate]. inversion E; subst. apply take_spec in Et.
     destruct Et as [Hx HL]. destruct a as [|x [|? ?]]; try discriminate.
     assert (Hb : be [x] = bN x) by (unfold be; cbn; lia). rewrite Hb in H.
-    unfold proto_parse in H. destruct (memN (bN x) proto_variants); inversion H; subst.
-    apply app_inv_tail in Hx. subst pre. exact Hl.
+    inversion H; subst. apply app_inv_tail in Hx. subst pre.
+    unfold proto_decode, proto_parse in *. destruct (memN (bN x) proto_variants); [exact Hl|].
+    vm_compute in Hl. discriminate.
   - reflexivity.
 Qed.
 
